@@ -414,6 +414,49 @@ def pinned_purefock_homodyne(ctx):
         ctx.fail("purefock-homodyne:first-mode", f"second moments of the samples {np.round(cov, 3).tolist()} instead of [[2, 1], [1, 2]]", desc)
 
 
+def imperfect_detector_law(ctx, n):
+    """exact law of `_sample_detected_outcomes` (every random-choice path): the detected outcomes of `multiplicity` shots with the
+    same actual outcome are independent draws from prod_modes D[:, actual_mode] — independent ACROSS MODES as well, also when two
+    modes hold the same actual photon number"""
+    from piquasso._simulators import simulation_steps as ss
+    rng = np.random.default_rng(ctx.seed + 2222)
+    fails = []
+    for it in range(n):
+        k = int(rng.integers(2, 4)); nd = int(rng.integers(2, 4)); mult = int(rng.integers(1, 3))
+        D = np.triu(rng.uniform(0.05, 1.0, size=(nd, nd)))
+        if rng.random() < 0.5:
+            D[1:, 0] = rng.uniform(0.02, 0.2, size=nd - 1)            # dark counts
+        D = D / D.sum(axis=0)
+        actual = tuple(int(x) for x in rng.integers(0, nd, size=k))
+        if it % 2 == 0:
+            actual = (actual[0],) * k                                    # equal actual counts on all modes
+        desc = {"actual_outcome": actual, "multiplicity": mult, "detector_efficiency_matrix": D.tolist()}
+        def run(r):
+            out = ss._sample_detected_outcomes(actual, mult, D, r)
+            return tuple(sorted(out.items()))
+        try:
+            law = exact_law(run)
+        except Exception as e:
+            fails.append((f"imperfect-raise:{type(e).__name__}", f"{type(e).__name__}: {str(e)[:120]}", desc)); continue
+        single = {}
+        for o in itertools.product(range(nd), repeat=k):
+            single[o] = float(np.prod([D[o[m], actual[m]] for m in range(k)]))
+        ref = {}
+        for shots in itertools.product(single.items(), repeat=mult):
+            cnt = {}
+            p = 1.0
+            for o, pr in shots:
+                cnt[o] = cnt.get(o, 0) + 1; p *= pr
+            if p > 0:
+                key = tuple(sorted(cnt.items()))
+                ref[key] = ref.get(key, 0.0) + p
+        ctx.count(("imperfect", it), nontrivial=len(set(actual)) < k)
+        worst, wk = compare(law, ref)
+        if worst > 1e-9:
+            fails.append(("law:imperfect-detector", f"imperfect detector: exact law of the real sampler gives P{wk} = {law.get(wk, 0.0):.6f}, independent detectors give {ref.get(wk, 0.0):.6f} (actual outcome {actual})", desc))
+    return fails
+
+
 def run(ctx):
     quick = ctx.tier == "quick"
     n_s, n_c, n_d = (60, 30, 4) if quick else (1200, 400, 40)
@@ -436,7 +479,7 @@ def run(ctx):
     if m_pmf:
         ctx.broken.append("correspondence:Lemmas/CliffordClifford (conditional pmf) vs _calculate_pmf")
         ctx.notes.setdefault("first_mismatches", []).extend(dict(op=m[0], real=m[1], model="") for m in m_pmf[:3])
-    fails = passive_samplers(ctx, n_s) + continuous(ctx, n_c) + shapes_and_discrete(ctx, n_d)
+    fails = passive_samplers(ctx, n_s) + imperfect_detector_law(ctx, 12 if quick else 200) + continuous(ctx, n_c) + shapes_and_discrete(ctx, n_d)
     ctx.notes["correspondence_mismatches"] = len(mism) + len(m_pmf)
     seen = set()
     for key, msg, inp in fails:
